@@ -136,7 +136,7 @@ let () =
   let eig t = let m = t_crs t in let x = t_vec t in
     let a = A.crs_view sc m in let c = A.to_crs sc a in
     dims a ^ " " ^ show_crs c ^ " " ^ show_crs c ^ " " ^ spmv1 c x in
-  reg "eigen" eig; reg "eigen_map" eig;
+  reg "eigen" eig; reg "eigen_map" eig; reg "eigen_unc" eig;
   reg "ublas" (fun t -> let m = t_crs t in let x = t_vec t in
     let a = A.tuple_adapter sc A.it_size_t (nrows m) (A.flat_ptr sc m) (A.flat_col sc m) (A.flat_val sc m) in
     let c = A.to_crs sc a in
